@@ -391,6 +391,11 @@ pub fn judge_fault_free(plan: &ClientPlan, run: &ClientRun) -> Judged {
                     if traffic || !reqs.is_empty() {
                         j.fail("C07", "refused_call_traffic", name, format!("{name}({token:?}) on a token that is not open caused traffic"));
                     }
+                    // C08's side of the same breach: a release / reversal went out that is not "against the
+                    // receipt number of that reservation" - there is no such reservation any more
+                    if let Some(q) = pk.iter().find(|q| (q.cf == (0x06, 0x23) || q.cf == (0x06, 0x25)) && q.get(0x87) != Some(&[0xff, 0xff][..])) {
+                        j.fail("C08", if is_commit { "commit_fields" } else { "cancel_fields" }, format!("{name}/closed_token"), format!("{name}({token:?}): the token is not open, yet {} went to the terminal against receipt {:?}", crate::conn::hex(&[q.cf.0, q.cf.1]), q.get_bcd(0x87)));
+                    }
                     match &o.result {
                         // (the documented error is the variant; how it renders the token is not pinned)
                         OpResult::Err { kind: ErrKind::UnknownToken(_), .. } => {}
